@@ -103,6 +103,8 @@ class Report:
             "samples": self.samples[:8],
             "counters": self.counters,
             "inconclusive": reasons,
+            # which cases were inconclusive (first few per reason), so that they can be looked at and replayed
+            "inconclusive_cases": [{"reason": r_, "case": i_} for r_, i_ in self.inconclusive if i_ is not None][:12],
             "known_findings_hit": {s: v[1] for s, v in self.known_hits.items()},
             "violation_signatures": sorted(seen_sigs)[:50],
         }
